@@ -14,9 +14,12 @@ fn recipe_of(case: &Case, calls: Vec<Call>) -> Recipe {
     Recipe { cols: case.cols, rows: case.rows, limit: case.limit, calls }
 }
 
-/// K2 signature (semantic, on a replica): the cursor is outside the interval of rows that
-/// absolute addressing can reach — i.e. origin mode is on and the cursor is parked
-/// outside the scroll region.
+/// K2 signature (semantic, on replicas), exactly the exception the property names:
+/// (a) origin mode is on and the cursor is parked outside the scroll region — the cursor row
+/// is outside the interval of rows that absolute addressing can reach — and (b) the saved
+/// cursor context disagrees with the current modes: restoring it (CSI u, which is how
+/// dump() repositions in this state) changes origin mode or auto-wrap.
+/// With (a) but not (b) dump() is expected to work and a failure is reported.
 pub fn k2_signature(r: &Recipe) -> bool {
     let mut v = r.build();
     let _ = v.feed_str("\x18");
@@ -25,24 +28,67 @@ pub fn k2_signature(r: &Recipe) -> bool {
     let r1 = v.cursor().row;
     let _ = v.feed_str("\x1b[9999;1H");
     let r2 = v.cursor().row;
-    row < r1 || row > r2
+    if !(row < r1 || row > r2) {
+        return false;
+    }
+    // the pen is re-established by dump() after the repositioning, so only the two modes count
+    let (now, restored) = (modes_readout(r, "\x18"), modes_readout(r, "\x18\x1b[u"));
+    (now.1, now.2) != (restored.1, restored.2)
 }
 
-/// K1 signature: a resize executed while the alternate screen is (or may be) showing.
+/// behavioural read-out of (pen, auto-wrap, origin mode) after `prefix`
+fn modes_readout(r: &Recipe, prefix: &str) -> (crate::model::PenSpec, bool, bool) {
+    let mut p = r.build();
+    let _ = p.feed_str(prefix);
+    let _ = p.feed_str("\rX");
+    let pc = p.cursor();
+    let pen = crate::model::PenSpec::of(p.view()[pc.row][0].pen());
+    let mut w = r.build();
+    let (cols, rows) = w.size();
+    let _ = w.feed_str(prefix);
+    let _ = w.feed_str("\x1b[4l\r");
+    let _ = w.feed_str(&"X".repeat(cols));
+    let autowrap = w.cursor().col == cols;
+    let mut o = r.build();
+    let _ = o.feed_str(prefix);
+    let _ = o.feed_str(&format!("\x1b[2;{}r\x1b[1;1H", rows));
+    let origin = o.cursor().row == 1;
+    (pen, autowrap, origin)
+}
+
+/// K1 signature: at dump time the alternate screen is (or may be) showing and a resize was
+/// executed during this excursion, so the parked primary screen is stale. A resize during
+/// an excursion that has ended (the primary is brought up to date when it is shown again)
+/// is not the finding and is judged normally.
 pub fn k1_signature(calls: &[Call]) -> bool {
+    k1_scan(calls).1
+}
+
+/// (a resize happened during some excursion, the parked primary is stale at the end)
+fn k1_scan(calls: &[Call]) -> (bool, bool) {
     let mut tr = ScreenTracker::new();
+    let mut stale = false;
+    let mut any = false;
     for c in calls {
         match c {
-            Call::FeedStr(s) | Call::Feed(s) => tr.feed_str(s),
+            Call::FeedStr(s) | Call::Feed(s) => {
+                for ch in s.chars() {
+                    tr.feed(ch);
+                    if tr.alt == Some(false) {
+                        stale = false;
+                    }
+                }
+            }
             Call::Resize(..) => {
                 if tr.alt != Some(false) {
-                    return true;
+                    stale = true;
+                    any = true;
                 }
             }
             _ => {}
         }
     }
-    false
+    (any, stale)
 }
 
 fn hidden_components(calls: &[Call], orig: &avt::Vt) -> Vec<&'static str> {
@@ -113,11 +159,14 @@ fn hidden_components(calls: &[Call], orig: &avt::Vt) -> Vec<&'static str> {
 }
 
 fn judge_one(case: &Case, calls: Vec<Call>, tail: &[String], tally: &mut Tally) -> Verdict {
-    if k1_signature(&calls) {
+    let (resized_on_alt, stale) = k1_scan(&calls);
+    if stale {
         if tolerated("K1") {
             tally.excluded += 1;
             return Verdict::Pass;
         }
+    } else if resized_on_alt {
+        tally.class("resize_during_finished_excursion");
     }
     let orig_r = recipe_of(case, calls.clone());
     let orig = orig_r.build();
@@ -218,10 +267,11 @@ pub fn gen_case(src: &mut Src, _i: usize) -> Case {
     let mut tr = ScreenTracker::new();
     for _ in 0..n {
         if src.chance(1, 6) {
-            // K1 (a resize while the alternate screen shows) is excluded by construction;
-            // one in twenty such resizes is emitted anyway so that the judge's exclusion
-            // path stays exercised and counted (`excluded_by_construction`)
-            if tr.alt == Some(false) || src.chance(1, 20) {
+            // K1 (dump while the alternate screen shows, after a resize during this excursion)
+            // is excluded by the judge and counted; resizes during an excursion are kept at
+            // one in three because most of these histories return to the primary screen
+            // later and are then judged normally
+            if tr.alt == Some(false) || src.chance(1, 3) {
                 let (c, r) = gen::resize_target(src, &g);
                 g.cols = c;
                 g.rows = r;
@@ -297,9 +347,45 @@ fn enum_components() -> Vec<Case> {
     v
 }
 
+/// origin mode on with the cursor parked outside the scroll region (reached by restoring a
+/// cursor saved before the margins moved), then moved relatively in every direction; with
+/// and without a saved context that disagrees with the current modes (only the latter is
+/// the listed exception K2)
+fn enum_origin_outside() -> Vec<Case> {
+    let mut v = vec![];
+    let (cols, rows) = (6usize, 5usize);
+    let moves = ["", "\x1b[C", "\x1b[D", "\x1b[9C", "\x1b[9D", "\x1b[A", "\x1b[B", "\x1b[9A", "\x1b[9B", "\x1b[2C\x1b[A", "\x1b[2D\x1b[B", "\x1b[C\x1b[B", "\x1b[D\x1b[A"];
+    let after = ["", "\x1b[?7l", "\x1b[?7h", "\x1b[1m", "\x1b[31mq", "\x1b[4h", "\x1b(0"];
+    let pens = ["", "\x1b[7;32m", "\x1b[?7l"];
+    for t in 1..=rows {
+        for b in t + 1..=rows {
+            for r in 1..=rows {
+                if r >= t && r <= b {
+                    continue;
+                }
+                for c in [1usize, 3, 6] {
+                    for pen in pens {
+                        for mv in moves {
+                            for a in after {
+                                let mut case = Case::new(cols, rows, None)
+                                    .feed(format!("ab\r\ncd\x1b[?6h{}\x1b[{};{}H\x1b7\x1b[{};{}r\x1b8{}{}", pen, r, c, t, b, mv, a));
+                                case.tail = vec!["X\x1b[2;2HY\x1b8Z".into()];
+                                v.push(case);
+                            }
+                        }
+                    }
+                }
+            }
+        }
+    }
+    v
+}
+
 pub fn run(env: &Env) -> PropRun {
     let j = |c: &Case, t: &mut Tally| judge("", c, t);
     let mut parts = vec![];
+    let eo = enum_origin_outside();
+    parts.push(run_part(env, "enum-origin-outside-region", eo.len(), true, "6x5: every scroll region x every saved row outside it x 3 columns x 3 set-ups before the save (plain, pen, auto-wrap off) x 13 relative moves after the restore x 7 follow-ups (saved auto-wrap off + current on is the listed exception K2)", &|i| eo.get(i).cloned(), &j));
     let ec = enum_components();
     parts.push(run_part(env, "enum-components", ec.len(), true, "2 sizes x (all ordered pairs of 20 hidden-state setters, the second cut at every position) + (20 setters x 22 partial sequences covering every non-ground parser state x 2 completions)", &|i| ec.get(i).cloned(), &j));
     parts.push(random_part(env, "short-every-cut", env.tier.scale(6_000, 30), &gen_short_all_cuts, &j));
@@ -309,8 +395,8 @@ pub fn run(env: &Env) -> PropRun {
         meta: EvidenceMeta {
             rule: "orig = terminal after the history; restored = fresh terminal of the same size fed orig.dump(). They must be observationally equivalent: same visible cells, pens, soft-wrap marks, cursor, visibility, cursor-key mode; equal after every element of ~25 chained probe sequences exposing parser state, pen, charsets, insert, auto-wrap, LNM, tab stops, margins, origin, both saved contexts, both screens; equal after the generated continuation (whose first element completes a cut sequence). Histories <= 60 chars are additionally cut at every position. Non-trivial = the history sets >= 2 hidden components.".into(),
             assumptions: vec![
-                "K1 (resize while the alternate screen is showing) is excluded by construction while listed as open in known_findings.json".into(),
-                "K2 (origin mode with the cursor outside the scroll region) failures are recognised by a semantic signature on a replica and counted, not reported, while listed as open".into(),
+                "K1: a dump taken while the alternate screen shows after a resize during that same excursion is excluded and counted while listed as open in known_findings.json; once the excursion has ended the history is judged normally".into(),
+                "K2: failures in states with origin mode on, the cursor outside the scroll region AND a saved context whose auto-wrap/origin mode differ from the current ones (read behaviourally on replicas) are counted, not reported, while listed as open; the same cursor state with an agreeing saved context is judged normally".into(),
             ],
             not_compared: vec!["scrollback (not part of the dump)".into(), "the text of dump() itself".into()],
         },
